@@ -7,35 +7,7 @@ import subprocess
 VERIF = os.path.dirname(os.path.dirname(os.path.abspath(__file__)))
 
 # id: (built, level, technique, level text, level note, design ref)
-CHECKS = {
-    "C01": (False, "exploration", "runtime differential monitor: generated circuit programs proved+verified, public inputs compared with a direct interpreter", "", "", "§3 C01"),
-    "C02": (False, "fault_enumeration", "fault-injecting prover (hooked knobs) + reject oracle at the verifier", "", "", "§3 C02"),
-    "C03": (False, "fault_enumeration", "exhaustive per-element proof tampering + reject oracle", "", "", "§3 C03"),
-    "C04": (False, "exploration", "transcript dependency monitor over recomputed challenges", "", "", "§3 C04"),
-    "C05": (False, "fault_enumeration", "stand-alone FRI runs with adversarial provers and fixed-challenge edits", "", "", "§3 C05"),
-    "C06": (False, "exploration", "differential monitor native verifier vs in-circuit verifier (witness generation + satisfaction oracle)", "", "", "§3 C06"),
-    "C07": (False, "fault_enumeration", "per-wire perturbation of generator-filled gate rows + evaluator differential", "", "", "§3 C07"),
-    "C08": (False, "fault_enumeration", "multiset reference model + fault-injecting prover", "", "", "§3 C08"),
-    "C09": (False, "fault_enumeration", "independent row predicates + trace corruption + proof tampering", "", "", "§3 C09"),
-    "C10": (False, "fault_enumeration", "multiset reference model for lookups / CTLs + corruption", "", "", "§3 C10"),
-    "C11": (False, "exploration", "differential monitor native STARK verifier vs in-circuit verifier", "", "", "§3 C11"),
-    "C12": (True, "exploration", "naive reference Merkle tree + hasher event-log checker under varied thread pools + Miri", "Trees of every shape in the bound (2^0..2^9 leaves quick / 2^13 thorough, verbatim and hashed leaf widths, every cap height, degenerate leaf sets, Poseidon and Keccak, batch trees with up to 4 heights) are built under pools of 1..16 threads; caps and proofs must equal a naive level-by-level reference, ~20 altered probes per opened position must get the reference verifier"s verdict, and a tracing hasher"s event log is checked offline for exactly-once hashing and produced-before-consumed. Exploration: held on the shapes, probes and interleavings executed.", "Trusted: H::two_to_one / H::hash_or_noop as primitives (C13 checks them), the harness reference tree. The event log observes hash calls, not raw memory; uninitialised-slot reads surface only as digests no event produced. Miri/TSan on the MaybeUninit code are in the thorough tier (see DESIGN).", "§3 C12"),
-    "C13": (True, "exploration", "differential monitor vs textbook Poseidon / sponge / duplex models, scalar+AVX2+AVX-512 builds", "1.5*10^6 (quick) / 3*10^7 (thorough) boundary-biased 12-lane states incl. non-canonical lanes are permuted by the crate (poseidon, poseidon_naive, mds_layer, PoseidonPermutation) and by a textbook Poseidon over u128 arithmetic with a pinned copy of the published constants (self-checked against the published test vectors each run); hash_no_pad/hash_pad/hash_or_noop/two_to_one/hash_n_to_m for all lengths 0..40 against a 15-line overwrite sponge; 10^4 random challenger scripts against a duplex model and replayed with different chunking; RecursiveChallenger via witness generation; Keccak permutation/hasher against an own Keccak-f. Run in chk, rel, AVX2, AVX-512 builds.", "Trusted: harness reference Poseidon/Keccak/sponge models and the pinned constants file. Not covered: states not sampled.", "§3 C13"),
-    "C14": (
-        True,
-        "exploration",
-        "runtime differential monitor vs u128/schoolbook reference + hooked assumption monitor, run in chk/rel/AVX2/AVX-512 builds",
-        "Every scalar, reduction, extension and packed-lane operation is executed on all pairs of a 71-value boundary set and on 2*10^7 (quick) / 4*10^8 (thorough) structured-random operand tuples per build variant and compared with u128 arithmetic; hook H1 proves the rare carry/borrow branches ran and traps a violated assume() instead of executing UB. Exploration is the right level: the operand space is 2^128 and the claim is 'held on the tuples executed, which are biased to every carry boundary'.",
-        "Trusted: Rust u128 `%`, the harness's schoolbook extension product, num::BigUint for exponents. Not covered: operand tuples not sampled; the x86 asm path is checked differentially (and under Miri only through its portable twin).",
-        "§3 C14",
-    ),
-    "C15": (True, "exploration", "differential monitor vs O(n^2) DFT / schoolbook polynomial algebra, SIMD builds, Miri on the unsafe permutation helpers", "FFT/IFFT/coset variants for every size 2^0..2^10 against an O(n^2) DFT and up to 2^18 (quick) / 2^21 (thorough) by 24-point Horner spot checks, every zero-tail factor, with/without root table (over-long tables must be refused with the documented panic), LDE; polynomial mul/add/sub/eval/div_rem/long division/divide_by_linear/inv_mod_xn over a grid of operand lengths incl. zero, constant, equal-degree; interpolation; ZeroPolyOnCoset; coset shifts; in-place and copying bit reversal for every log-size up to 19/22 and element sizes 1 B..16 KiB (small, chunked-even, chunked-odd, BIG_T paths counted); transpose; log helpers. Run in chk, AVX2, AVX-512 builds.", "Trusted: harness O(n^2) DFT and schoolbook algebra over u128. Sizes above the bound and operand values not sampled are not covered.", "§3 C15"),
-    "C16": (False, "exploration", "round-trip + verdict-equivalence monitor on proofs with forced index/coset collisions", "", "", "§3 C16"),
-    "C17": (False, "exploration", "serialization round-trip + interchange monitor", "", "", "§3 C17"),
-    "C18": (False, "fault_enumeration", "malformed-input catalogue under a panic/abort/allocation supervisor", "", "", "§3 C18"),
-    "C19": (False, "exploration", "cross-build / cross-schedule differential of deterministic artefacts + proof exchange", "", "", "§3 C19"),
-    "C20": (False, "exploration", "truth-table differential for conditional recursion + chain history monitor for cyclic recursion", "", "", "§3 C20"),
-}
+CHECKS = json.load(open(os.path.join(VERIF, "tools", "checks.json")))
 
 
 def main():
@@ -47,7 +19,8 @@ def main():
         hook_commits = []
     checks = []
     na = []
-    for pid, (built, level, tech, text, note, ref) in sorted(CHECKS.items()):
+    for pid, c in sorted(CHECKS.items()):
+        built, level, tech, text, note, ref = c["built"], c["level"], c["technique"], c["text"], c["note"], c["design_ref"]
         if not built:
             na.append({"property_id": pid, "reason": "runtime monitor designed (DESIGN.md %s) but not built yet in this revision; not claimed" % ref})
             continue
